@@ -132,7 +132,7 @@ pub fn run(c: &RealFsCase) -> Outcome {
 					counter += 1;
 					let d = dir_path(&root, *dir);
 					let p = if *deep { d.join("deep").join(format!("f{counter}.txt")) } else { d.join(format!("f{counter}.txt")) };
-					std::fs::write(&p, format!("{counter}")).map_err(|e| ("harness:fs".to_string(), e.to_string()))?;
+					std::fs::write(&p, format!("{counter}")).map_err(|e| ("env:fs".to_string(), e.to_string()))?;
 					last[(*dir % 3) as usize] = Some(p.clone());
 					touched.push(p);
 				}
@@ -154,7 +154,7 @@ pub fn run(c: &RealFsCase) -> Outcome {
 							}
 						}
 						// change the size too, so that the poll watcher's metadata comparison sees it
-						std::fs::write(&p, format!("rewritten {counter} {}", "x".repeat(counter))).map_err(|e| ("harness:fs".to_string(), e.to_string()))?;
+						std::fs::write(&p, format!("rewritten {counter} {}", "x".repeat(counter))).map_err(|e| ("env:fs".to_string(), e.to_string()))?;
 						touched.push(p);
 					}
 				}
@@ -162,7 +162,7 @@ pub fn run(c: &RealFsCase) -> Outcome {
 					if let Some(p) = last[(*dir % 3) as usize].clone() {
 						counter += 1;
 						let q = p.with_file_name(format!("r{counter}.txt"));
-						std::fs::rename(&p, &q).map_err(|e| ("harness:fs".to_string(), e.to_string()))?;
+						std::fs::rename(&p, &q).map_err(|e| ("env:fs".to_string(), e.to_string()))?;
 						last[(*dir % 3) as usize] = Some(q.clone());
 						touched.push(p);
 						touched.push(q);
@@ -170,14 +170,14 @@ pub fn run(c: &RealFsCase) -> Outcome {
 				}
 				FsStep::Remove { dir } => {
 					if let Some(p) = last[(*dir % 3) as usize].take() {
-						std::fs::remove_file(&p).map_err(|e| ("harness:fs".to_string(), e.to_string()))?;
+						std::fs::remove_file(&p).map_err(|e| ("env:fs".to_string(), e.to_string()))?;
 						touched.push(p);
 					}
 				}
 				FsStep::Mkdir { dir } => {
 					counter += 1;
 					let p = dir_path(&root, *dir).join(format!("d{counter}"));
-					std::fs::create_dir(&p).map_err(|e| ("harness:fs".to_string(), e.to_string()))?;
+					std::fs::create_dir(&p).map_err(|e| ("env:fs".to_string(), e.to_string()))?;
 					touched.push(p);
 				}
 			}
